@@ -11,6 +11,7 @@ u32 x_toupper(u32 c) { return (c >= 'a' && c <= 'z') ? c - 32 : c; }
 u32 x_isdigit(u32 c) { return c >= '0' && c <= '9'; }
 u32 x_isspace(u32 c) { return c < 256 && vp_isspace((u8)c); }
 u32 x_isalpha(u32 c) { return (c >= 'A' && c <= 'Z') || (c >= 'a' && c <= 'z'); }
+u32 x_isxdigit(u32 c) { return (c >= 48 && c <= 57) || (c >= 65 && c <= 70) || (c >= 97 && c <= 102); }
 u32 x_isalnum(u32 c) { return x_isalpha(c) || x_isdigit(c); }
 u64 x_strlen(u8* s) { u64 n = 0; while (s[n]) n++; return n; }
 /* memcmp/bcmp: both ranges must be readable for n bytes (contract); result sign as glibc */
